@@ -90,6 +90,16 @@ def generic_simplifier(rec):
     spec = rec.get("spec")
     if isinstance(spec, dict) and "rows" in spec:
         d = len(spec["rows"])
+        if d > 1:
+            # shorter trains first: drop the last / the first core (boundary rank forced back to 1)
+            for cut in ("last", "first"):
+                r = copy.deepcopy(rec)
+                sp = r["spec"]
+                for key in ("rows", "cols", "layout", "vals"):
+                    if isinstance(sp.get(key), list):
+                        sp[key] = sp[key][:-1] if cut == "last" else sp[key][1:]
+                sp["ranks"] = (sp["ranks"][:-2] + [1]) if cut == "last" else ([1] + sp["ranks"][2:])
+                out.append(r)
         if spec.get("dtype") == "c16":
             r = copy.deepcopy(rec)
             r["spec"]["dtype"] = "f8"
